@@ -16,7 +16,10 @@ RULE = ('(order) all pairs of orders in {-2..2, >, >>, >>>, <, <<, *, **, ***} x
         'compared as a set of placements; (apply) 1-4 links in order with interactions (one per type per link), versioned '
         'interactions, removals by atoms / parameters / atom attributes / meta, attribute replacement, node removal, '
         'geometry-derived parameters (distance, angle) recomputed independently from the matched atoms; real '
-        'DoLinks.run_molecule, interactions compared as multisets per type. non-trivial = a match case with at least one '
+        'DoLinks.run_molecule, interactions compared as multisets per type; shipped data: peptides of 2-5 residues built from the '
+        'shipped charmm blocks, mapped to martini3001 with the shipped mappings, random secondary structure / scfix / extdih / '
+        'idr flags, all 39 shipped martini3001 links applied by the real DoLinks and by the model (pruned enumeration, proved '
+        'equivalent). non-trivial = a match case with at least one '
         'placement and at least one rejected injective assignment whose atoms all match, or an apply case where something '
         'was added and something overridden or removed; distinct by input')
 ASSUMPTIONS = ['node attributes are plain values',
@@ -311,6 +314,167 @@ def gen_removal_case(rng):
     return {'kind': 'apply', 'mol': mol, 'links': links}
 
 
+# ---------------------------------------------------------------- shipped data
+def gen_real_case(rng):
+    from . import c01
+    seq = []
+    for _ in range(rng.randint(2, 5)):
+        seq.append(rng.choice(c01.REAL_RESIDUES))
+    return {'kind': 'real', 'seq': seq, 'ss': [rng.choice('CCHHHESTF123') for _ in seq], 'first_resid': rng.choice([1, 1, 5]), 'gap': rng.random() < 0.25,
+            'meta': {k: True for k in ('scfix', 'extdih', 'idr') if rng.random() < 0.5}, 'idr': rng.random() < 0.3,
+            'seed': rng.randrange(10 ** 6), 'fast': True}
+
+
+class _Codes:
+    def __init__(self):
+        self.d = {}
+
+    def __call__(self, x):
+        return self.d.setdefault(repr(x), len(self.d) + 1)
+
+
+def run_real(inp):
+    import random
+    import numpy as np
+    import vermouth.molecule as vm
+    from vermouth.processors import do_mapping as dm, do_links
+    from vermouth import geometry
+    from . import c01
+    env = c01.real_env()
+    ff_from, ff_to = env['ffs']['charmm'], env['ffs']['martini3001']
+    rng = random.Random(inp['seed'])
+    mol = vm.Molecule(force_field=ff_from)
+    key, resid, prevC = 0, inp['first_resid'], None
+    for resname, ss in zip(inp['seq'], inp['ss']):
+        block = ff_from.blocks[resname]
+        local = {}
+        for nme in block.nodes:
+            key += 1
+            attrs = dict(block.nodes[nme])
+            attrs.update(resid=resid, chain='A', cgsecstruct=ss)
+            if inp['idr']:
+                attrs['cgidr'] = True
+            mol.add_node(key, **attrs)
+            local[nme] = key
+        for u, v in block.edges:
+            mol.add_edge(local[u], local[v])
+        if prevC is not None and 'N' in local:
+            mol.add_edge(prevC, local['N'])
+        prevC = local.get('C')
+        resid += 2 if inp['gap'] else 1
+    cg = dm.do_mapping(mol, env['maps'], ff_to, attribute_keep=('cgsecstruct', 'chain', 'cgidr'), attribute_must=('resname',), attribute_stash=('resid',))
+    for k in cg.nodes:
+        cg.nodes[k]['position'] = np.array([round(rng.uniform(-2, 2), 3) for _ in range(3)])
+    cg.meta.update(inp['meta'])
+    links = list(ff_to.links)
+    # ---- encode
+    akey, aval, tcode, pcode, mkey, mval = _Codes(), _Codes(), _Codes(), _Codes(), _Codes(), _Codes()
+    tmpl_keys = set()
+    for l in links:
+        for _, nd in l.nodes(data=True):
+            tmpl_keys.update(k for k in nd if k not in ('order', 'replace', 'modifications'))
+        for _, t in l.non_edges:
+            tmpl_keys.update(k for k in t if k not in ('order', 'replace', 'modifications'))
+        for pat in l.patterns:
+            for _, t in pat:
+                tmpl_keys.update(t)
+    metakeys = set()
+    for l in links:
+        metakeys.update(l.molecule_meta)
+
+    def enc_attrs(d, keys, kc, vc):
+        return sorted((kc(k) + 10, vc(d[k])) for k in keys if k in d)
+
+    def enc_meta(meta):
+        out = []
+        for k, v in meta.items():
+            out.append((0, int(v)) if k == 'version' else (mkey(k) + 10, mval(v)))
+        return sorted(out)
+
+    def enc_tmpl(t):
+        out = []
+        for k, v in t.items():
+            if k in ('order', 'replace'):
+                continue
+            if k == 'modifications':
+                raise ValueError('modifications in a shipped link: not encoded')
+            if isinstance(v, vm.Choice):
+                out.append([akey(k) + 10, ['choice', [aval(x) for x in v.value]]])
+            elif isinstance(v, vm.NotDefinedOrNot):
+                out.append([akey(k) + 10, ['not', aval(v.value)]])
+            elif isinstance(v, vm.LinkPredicate):
+                raise ValueError('unknown predicate %r' % v)
+            else:
+                out.append([akey(k) + 10, ['eq', aval(v)]])
+        return dict((k, p) for k, p in out)
+
+    def enc_order(o):
+        if isinstance(o, str):
+            c = o[0]
+            if len(set(o)) != 1 or c not in '><*':
+                raise ValueError('order %r' % o)
+            return ['a', len(o) if c == '>' else -len(o)] if c in '><' else ['s', len(o)]
+        return ['n', int(o)]
+
+    def enc_inters(interactions, amap=None):
+        out = {}
+        for t, lst in interactions.items():
+            for i in lst:
+                params = []
+                for p in i.parameters:
+                    params.append(GEOM_BASE + 4 if not isinstance(p, str) else pcode(p))
+                out.setdefault(tcode(t), []).append({'atoms': [amap[a] if amap else a for a in i.atoms], 'params': params,
+                                                     'meta': dict(enc_meta(i.meta))})
+        return out
+
+    m = {'nodes': [{'key': k, 'resid': cg.nodes[k]['resid'], 'attrs': dict(enc_attrs(cg.nodes[k], tmpl_keys, akey, aval)), 'mods': [],
+                    'pos': [float(x) for x in cg.nodes[k]['position']]} for k in cg.nodes],
+         'edges': [list(e) for e in cg.edges],
+         'meta': dict((mkey(k) + 10, mval(v)) for k, v in cg.meta.items() if k in metakeys),
+         'inters': enc_inters(cg.interactions)}
+    enc_links = []
+    for l in links:
+        lk = {k: 100 + i for i, k in enumerate(l.nodes)}
+        nodes = []
+        for k, nd in l.nodes(data=True):
+            rep = None
+            if 'replace' in nd:
+                r = nd['replace']
+                rep = [{}, True] if r.get('atomname', False) is None else [dict(enc_attrs(r, r.keys(), akey, aval)), False]
+            nodes.append({'key': lk[k], 'order': enc_order(nd.get('order', 0)), 'tmpl': enc_tmpl(nd), 'replace': rep})
+        inters = []
+        for t, lst in enc_inters(l.interactions, lk).items():
+            inters += [[t, i] for i in lst]
+        removed = []
+        for t, lst in l.removed_interactions.items():
+            for r in lst:
+                removed.append([tcode(t), {'atoms': [lk[a] for a in r.atoms], 'params': [pcode(p) for p in r.parameters],
+                                           'atom_tmpl': [enc_tmpl(a) for a in r.atom_attrs], 'meta': enc_tmpl(r.meta)}])
+        enc_links.append({'nodes': nodes, 'edges': [[lk[u], lk[v]] for u, v in l.edges],
+                          'non_edges': [[lk.get(f, 99), [enc_order(t.get('order', 0)), enc_tmpl(t)]] for f, t in l.non_edges],
+                          'patterns': [[[lk[k], enc_tmpl(t)] for k, t in pat] for pat in l.patterns],
+                          'molmeta': dict((mkey(k) + 10, ['eq', mval(v)]) for k, v in l.molecule_meta.items()),
+                          'inters': inters, 'removed': removed})
+    pos = {k: cg.nodes[k]['position'] for k in cg.nodes}
+    do_links.DoLinks().run_molecule(cg)
+    out_inters = {}
+    for t, lst in cg.interactions.items():
+        for i in lst:
+            params = []
+            for p in i.parameters:
+                if isinstance(p, str) and repr(p) in pcode.d:
+                    params.append(pcode(p))
+                elif isinstance(p, str) and len(i.atoms) == 4:
+                    # a formatted dihedral phase: recompute from the interaction's own atoms
+                    want = '{:.01f}'.format(np.degrees(geometry.dihedral_phase(np.stack([pos[a] for a in i.atoms]))))
+                    params.append(GEOM_BASE + 4 if p == want else -1)
+                else:
+                    params.append(pcode(p))
+            out_inters.setdefault(str(tcode(t)), []).append({'atoms': list(i.atoms), 'params': params, 'meta': dict((str(k), v) for k, v in enc_meta(i.meta))})
+    nodes = [{'key': k, 'resid': cg.nodes[k]['resid'], 'attrs': dict((str(a), b) for a, b in enc_attrs(cg.nodes[k], tmpl_keys, akey, aval)), 'mods': []} for k in cg.nodes]
+    return {'mol': m, 'links': enc_links, 'inters': out_inters, 'nodes': nodes}
+
+
 def generate(rng, tier):
     cases = []
     for o1 in ORDERS:
@@ -326,6 +490,8 @@ def generate(rng, tier):
         cases.append(gen_apply(rng))
     for _ in range(120 if tier == 'quick' else 2000):
         cases.append(gen_removal_case(rng))
+    for _ in range(30 if tier == 'quick' else 500):
+        cases.append(gen_real_case(rng))
     return cases
 
 
@@ -441,6 +607,8 @@ def run_impl(inp):
     import vermouth.forcefield
     import vermouth.molecule
     from vermouth.processors import do_links
+    if inp['kind'] == 'real':
+        return run_real(inp)
     if inp['kind'] == 'order':
         return {'ok': bool(do_links.match_order(py_order(inp['o1']), inp['r1'], py_order(inp['o2']), inp['r2']))}
     ff = vermouth.forcefield.ForceField(name='testff')
@@ -539,17 +707,21 @@ def link_lit(l):
 
 
 def emit(inp, out):
+    if inp['kind'] == 'real':
+        inp = dict(inp, kind='apply', mol=out['mol'], links=out['links'])
     if inp['kind'] == 'order':
         return 'COrder %s %s %s %s %s' % (order_lit(inp['o1']), zlit(inp['r1']), order_lit(inp['o2']), zlit(inp['r2']), blit(out['ok']))
     if inp['kind'] == 'match':
         return 'CMatch %s %s %s' % (link_lit(inp['link']), mol_lit(inp['mol']),
                                     listlit(out['matches'], lambda m: listlit(m, lambda kv: '(%s, %s)' % (zlit(kv[0]), zlit(kv[1])))))
-    return 'CApply %s %s %s %s' % (listlit(inp['links'], link_lit), mol_lit(inp['mol']),
+    return 'CApply %s %s %s %s %s' % (blit(bool(inp.get('fast'))), listlit(inp['links'], link_lit), mol_lit(inp['mol']),
                                    listlit(sorted((int(t), l) for t, l in out['inters'].items()), lambda tl: '(%s, %s)' % (zlit(tl[0]), listlit(tl[1], inter_lit))),
                                    listlit(out['nodes'], node_lit))
 
 
 def nontrivial(inp, out):
+    if inp['kind'] == 'real':
+        return str(inp)
     if inp['kind'] == 'order':
         return ('o', str(inp))
     if inp['kind'] == 'match':
@@ -565,6 +737,9 @@ def nontrivial(inp, out):
 
 
 def describe(inp, out):
+    if inp['kind'] == 'real':
+        return {'kind': 'real', 'real_n_res': len(inp['seq']), 'real_meta': '+'.join(sorted(inp['meta'])) or 'none',
+                'real_n_inters': min(sum(len(v) for v in out['inters'].values()), 60) // 10 * 10}
     if inp['kind'] == 'order':
         return {'kind': 'order', 'result': out['ok']}
     if inp['kind'] == 'match':
@@ -579,6 +754,10 @@ def describe(inp, out):
 
 
 def shrink(inp):
+    if inp['kind'] == 'real':
+        for i in range(len(inp['seq'])):
+            if len(inp['seq']) > 2:
+                yield dict(inp, seq=inp['seq'][:i] + inp['seq'][i + 1:], ss=inp['ss'][:i] + inp['ss'][i + 1:])
     if inp['kind'] == 'apply':
         for i in range(len(inp['links'])):
             if len(inp['links']) > 1:
